@@ -25,6 +25,7 @@ RULE = ('CAMx-convention in-memory files obtained (a) by reading an image '
         'payloads incl. denormals, -0.0, +-max. non-trivial = >= 2 cells '
         'per field; distinct = digest of the spec.')
 RULE += (' Also: end times at hour 24, species names with underscores, stale header attributes on constructed files, another file of the same format opened between read and write (decoy), cloud/rain sizes that are whole numbers of both 3- and 5-variable steps.')
+RULE += (" The wind file's stagger flag (present/absent and value) and the cloud/rain file description are compared on read-back.")
 ASSUMPTIONS = [
     'f is the in-memory file handed to the writer; equality is bit-exact on '
     'float32 data and exact on integer time flags',
